@@ -4,6 +4,7 @@ import ast
 from .. import ordtype as O
 from .. import state
 from ..loader import AnalysisError, norm_stmt
+from ..small import call_arg, pad_side
 from .C11 import FOURIER_EDGES, GEN
 from .C16 import factors, signed_factors, terms
 
@@ -108,6 +109,14 @@ def run(ctx):
     pe = [n for n in ast.walk(upd) if isinstance(n, ast.Assign) and ast.unparse(n.targets[0]) == "self._period"]
     ok = len(pe) == 1 and ast.unparse(pe[0].value) == "self._fill_to_dim(period, dim)"
     ctx.check(ok, "R17.3", GEN + "::Fourier.update", "one period per axis (filled to dim)", "period-fill")
+    # a short period / mode_no list is filled BEHIND with its last entry: axis i keeps the i-th given value
+    ftd = prog.func(GEN, "Fourier._fill_to_dim")
+    pads = [n for n in ast.walk(ftd) if isinstance(n, ast.Call) and ast.unparse(n.func) == "np.pad"]
+    ok = len(pads) == 1 and pad_side(pads[0]) == ("behind", "edge", "dim - len(r)") and ast.unparse(call_arg(pads[0], 0, "array")) == "r"
+    ctx.check(ok, "R17.3", GEN + "::Fourier._fill_to_dim", "too few per-axis values are filled up behind with the last one (the i-th given period stays on axis i): %s"
+              % (ast.unparse(pads[0]) if pads else "no np.pad"), "fill-behind")
+    trunc = [n for n in ast.walk(ftd) if isinstance(n, ast.Subscript) and isinstance(n.slice, ast.Slice) and n.slice.lower is None and n.slice.upper is not None and ast.unparse(n.slice.upper) == "dim"]
+    ctx.check(bool(trunc), "R17.3", GEN + "::Fourier._fill_to_dim", "values are taken in axis order ([:dim])", "fill-order")
     # phase over all components, kernel receives the mesh
     k = prog.func("field/summator.pyx", "summate_fourier")
     ph = [n for n in ast.walk(k) if isinstance(n, ast.AugAssign) and ast.unparse(n.target) == "phase"]
